@@ -2,6 +2,8 @@ mod executor;
 mod geometry_variables;
 mod instruction;
 mod parser;
+#[cfg(feature = "verif-hooks")]
+mod verif;
 
 use std::str::FromStr;
 
